@@ -28,7 +28,7 @@ func init() {
 
 func ruleOneReader(c *Ctx) {
 	const R = "R16-onereader"
-	c.floor(R, 8)
+	c.floor(R, 9)
 	p := c.P
 	p.computeNoReturn()
 	readers := map[string]bool{"strconv.ParseFloat": true, "strconv.ParseInt": true, "strconv.ParseUint": true, "strconv.Atoi": true,
@@ -42,6 +42,27 @@ func ruleOneReader(c *Ctx) {
 	parseNumber := c.need(R, "lua", "parseNumber")
 	if parseNumber == nil {
 		return
+	}
+	// the reader strips C-locale blanks only: no rune-aware helper (TrimSpace also strips U+00A0, U+0085,
+	// U+2000…, which the lexer rejects — the readers would no longer agree)
+	{
+		var bad []string
+		var first ssa.Instruction
+		withClosures(parseNumber, func(f *ssa.Function) {
+			allInstrs(f, func(in ssa.Instruction) {
+				if pk, n, ok := stdCall(in); ok && (runeAware[pk+"."+n] || pk == "unicode" || pk == "unicode/utf8") {
+					bad = append(bad, pk+"."+n)
+					if first == nil {
+						first = in
+					}
+				}
+			})
+		})
+		pos := p.pos(parseNumber.Pos())
+		if first != nil {
+			pos = p.ipos(first)
+		}
+		c.check(len(bad) == 0, R, "parseNumber:c-locale-blanks-only", pos, "the numeral reader uses no rune-aware helper", "parseNumber uses "+strings.Join(bad, ", ")+": a numeral padded with a Unicode space (U+00A0, U+0085, U+2000…) is accepted by tonumber and by arithmetic coercion although the lexer rejects the same text")
 	}
 	for _, fn := range p.srcFuncs {
 		if fn.Pkg == nil || !(fn.Pkg.Pkg.Path() == luaPath || fn.Pkg.Pkg.Path() == luaPath+"/parse") {
